@@ -461,8 +461,11 @@ def finish(pid, tier, seed, t0, ob, summary, cases, failures, cfg, fatal=None, r
                 "what": "proof obligation no longer checks; failing-input search (corpus + %d generated cases) found nothing" % len(cases),
                 "log": ob["log"][-3000:]})
             violations.append((path, True))
-    for fid, (f, idxs) in sorted(known_hit.items()):
-        print("KNOWN-FINDING: property=%s %s [%s; %d matching case(s) this run]" % (pid, f["what"], fid, len(idxs)))
+    # one line per listed (status=known) finding of this property, whether or not this run's
+    # generator happened to reproduce it; the count says how many failing cases it absorbed
+    for f in findings:
+        n = len(known_hit.get(f["id"], (f, []))[1])
+        print("KNOWN-FINDING: property=%s %s [%s; %d matching case(s) this run]" % (pid, f["what"], f["id"], n))
     wall = time.time() - t0
     # evidence
     samples = []
